@@ -212,8 +212,9 @@ def run(ctx):
             if not (isinstance(n, ast.Compare) and len(n.ops) == 1 and isinstance(n.ops[0], (ast.LtE, ast.Lt, ast.GtE, ast.Gt, ast.Eq))):
                 continue
             sides = [n.left, n.comparators[0]]
+            st_n = p.enclosing_stmt(n)
             acc = [x for x in sides if any(isinstance(c, ast.Call) and au.method_name(c) == "cumsum" for c in au.walk_local(x))
-                   and any(isinstance(y, ast.Name) and y.id == "dt" or isinstance(y, ast.Attribute) and y.attr == "dt" for y in au.walk_local(x))]
+                   and any(isinstance(y, ast.Attribute) and y.attr == "dt" for y in ctx.origins(fn, values_only=True).nodes(x, st_n))]
             if len(acc) != 1:
                 continue
             other = sides[1] if acc[0] is sides[0] else sides[0]
